@@ -303,16 +303,26 @@ def r5(ctx, rep):
     rep.rule("C13.R5", "the reported line/column pair is the position of the span; the quoted text is the unmodified source", floor=4)
     syn = ctx.syn
     cl = syn.fn("ErrorMessage::compose_location", crate="prqlc")
-    inits = local_inits(cl)
-    s_ok = show(inits.get("start"), maxdepth=8) == "source.get_offset_line(span.start)?" or "span.start" in show(inits.get("start"), maxdepth=8)
-    e_ok = "span.end" in show(inits.get("end"), maxdepth=8)
-    rep.check(s_ok and e_ok and "span.end" not in show(inits.get("start"), maxdepth=8) and "span.start" not in show(inits.get("end"), maxdepth=8), "lookup-ends",
-              "start must be looked up from span.start and end from span.end", file=cl["file"], line=cl["l"], fn=cl["path"])
+    # role-based and name-independent: the two fields of SourceLocation with every local inlined
+    import alpha
+    A = alpha.Inliner(cl)
     loc = None
     for n in walk(cl["body"]):
         if n.get("k") == "struct" and last_seg(n["p"]) == "SourceLocation":
-            loc = {a: show(b) for a, b in n["f"]}
-    rep.check(loc == {"start": "(start.1, start.2)", "end": "(end.1, end.2)"}, "location-fields",
+            loc = {a: A.show(b) for a, b in n["f"]}
+
+    def pair_of(txt, which):
+        """txt must be `(L.1, L.2)` where L is one get_offset_line lookup of span.<which>"""
+        m_ = re.fullmatch(r"\((.+)\.1, (.+)\.2\)", txt or "")
+        if not m_ or m_.group(1) != m_.group(2):
+            return False
+        L = m_.group(1)
+        other = "end" if which == "start" else "start"
+        return "get_offset_line(" in L and re.search(r"\.%s\b" % which, L) is not None and re.search(r"\.%s\)" % other, L) is None
+    s_ok = loc is not None and pair_of(loc.get("start"), "start")
+    e_ok = loc is not None and pair_of(loc.get("end"), "end")
+    rep.check(s_ok and e_ok, "lookup-ends", "start must be looked up from span.start and end from span.end", file=cl["file"], line=cl["l"], fn=cl["path"])
+    rep.check(s_ok and e_ok and set(loc) == {"start", "end"}, "location-fields",
               f"SourceLocation must be start = (line, column) of the start lookup and end = (line, column) of the end lookup; found {loc}", file=cl["file"], line=cl["l"], fn=cl["path"])
     # the text ariadne renders and indexes is the source text the spans were computed on
     fe = [f for f in syn.fns if f["crate"] == "prqlc" and f.get("self_short") == "FileTreeCache" and f["name"] == "fetch"]
